@@ -58,6 +58,7 @@ type lCase struct {
 	Ops     []lOp  `json:"ops"`
 	Budgets []int  `json:"budgets"`
 	E2E     *lE2E  `json:"e2e,omitempty"` // end-to-end part (layers_e2e.go), present in a fraction of the cases
+	Glue    *gluelayerLayersCase `json:"glue,omitempty"` // whole `apko build` against a synthetic repository (layers_glue.go)
 }
 
 type layersSuite struct{}
@@ -258,6 +259,9 @@ func (layersSuite) Gen(r *Rng, i int, tier string) any {
 	c := genLayersCase(r, tier)
 	if i%8 == 3 {
 		c.E2E = genLayersE2E(r)
+	}
+	if i%8 == 6 {
+		c.Glue = genGluelayerLayers(r)
 	}
 	return c
 }
@@ -597,6 +601,9 @@ func (layersSuite) Run(raw json.RawMessage) []Step {
 	}
 	if c.E2E != nil {
 		steps = append(steps, runLayersE2E(ctx, c.E2E, tmp)...)
+	}
+	if c.Glue != nil {
+		steps = append(steps, runGluelayerLayers(c.Glue)...)
 	}
 	return steps
 }
